@@ -365,6 +365,30 @@ def run_fault_case(case, rec=None):
                 got2 = [O.c14n(s.part.blob) for s in prs2.slides]
             if got2 != want:
                 raise Violation("C16:slide-order-after-reopen:%s" % fk, "%s with %s" % (deck, applied))
+            # the opened deck is then used: slides added to it must not displace the ones it came with
+            if any(f[0] == "rename" for f in applied):
+                with sut("C16:add-slides-after-open:" + fk):
+                    lay = prs.slide_layouts[0] if len(prs.slide_layouts) else None
+                    nadd = 0
+                    if lay is not None:
+                        for _ in range(3):
+                            prs.slides.add_slide(lay)
+                            nadd += 1
+                    out3 = io.BytesIO()
+                    prs.save(out3)
+                o3 = O.Pkg.read(out3.getvalue())
+                if o3.dups:
+                    raise Violation("C16:slides-added-after-open:duplicate-member:%s" % fk,
+                                    "%s with %s: after adding %d slides the saved package has members %r twice"
+                                    % (deck, applied, nadd, o3.dups[:4]))
+                with sut("C16:reopen-after-add:" + fk):
+                    prs3 = Presentation(io.BytesIO(out3.getvalue()))
+                    got3 = [O.c14n(s.part.blob) for s in prs3.slides]
+                if got3[:len(want)] != want or len(got3) != len(want) + nadd:
+                    raise Violation("C16:slides-added-after-open:originals-changed:%s" % fk,
+                                    "%s with %s: after adding %d slides, save and re-open the deck has %d slides and "
+                                    "the first %d %s the input's" % (deck, applied, nadd, len(got3), len(want),
+                                                                      "equal" if got3[:len(want)] == want else "differ from"))
     finally:
         shutil.rmtree(tmp, ignore_errors=True)
     if rec is not None:
